@@ -55,3 +55,10 @@ Qed.
 (* a validity predicate that rejects something: an out-of-bounds struct pointer *)
 Example ex_invalid : valid_message [[0; 0; 0; 0; 1; 0; 0; 0]] = VBad 1.
 Proof. vm_compute. reflexivity. Qed.
+
+(* Message.SetRoot as found: a hand-made message whose first segment cannot hold the root word
+   made it panic; the repaired code (and [set_root]) reports an error *)
+Definition ex_rootless : world := mkW (mkBM AMulti [mkBS [] 4; mkBS (repeat 0 8) 8] [] 100) [] 0.
+Example set_root_total_refuted :
+  set_root_asfound 10 ex_rootless InDst nullPtr = Panic /\ set_root 10 ex_rootless InDst nullPtr = Err.
+Proof. split; reflexivity. Qed.
